@@ -38,7 +38,7 @@ RUNS = {
                  'entropy': 60000, 'secrets': 1000000},
 }
 RUNS_C14 = {
-    'quick': {'evloop': 1200, 'netio': 700, 'http': 250, 'containers': 600},
+    'quick': {'evloop': 700, 'netio': 400, 'http': 200, 'containers': 400},
     'thorough': {'evloop': 60000, 'netio': 30000, 'http': 10000, 'containers': 100000},
 }
 
